@@ -100,3 +100,65 @@ def undo_renames(trees: Dict[str, ast.Module]) -> Dict[str, str]:
                     x.value = old_name       # getattr(self, 'name') / table of method names
         done[new_key] = old_key
     return done
+
+
+def canonical_imports(trees: Dict[str, ast.Module], pkg: str = 'pynetdicom2') -> int:
+    """One spelling for imports of the package's own modules: ``import pkg.mod as x`` / ``from pkg import mod as x`` /
+    ``from . import mod as x`` all become ``from . import mod`` and every reference ``x.`` becomes ``mod.``;
+    ``from pkg.mod import name`` becomes ``from .mod import name``.  An alias is left alone when the module's own name (or the
+    alias) is bound to something else anywhere in that file."""
+    n_changed = 0
+    mods = set(trees)
+    for modname, tree in trees.items():
+        bound = set()
+        for n in ast.walk(tree):
+            if isinstance(n, ast.Name) and isinstance(n.ctx, (ast.Store, ast.Del)):
+                bound.add(n.id)
+            elif isinstance(n, ast.arg):
+                bound.add(n.arg)
+            elif isinstance(n, (ast.FunctionDef, ast.AsyncFunctionDef, ast.ClassDef)):
+                bound.add(n.name)
+            elif isinstance(n, ast.ExceptHandler) and n.name:
+                bound.add(n.name)
+        rename: Dict[str, str] = {}
+        new_body = []
+        for st in tree.body:
+            if isinstance(st, ast.Import):
+                keep = []
+                for a in st.names:
+                    parts = a.name.split('.')
+                    if len(parts) == 2 and parts[0] == pkg and parts[1] in mods and a.asname:
+                        m2 = parts[1]
+                        if a.asname != m2 and (m2 in bound or a.asname in bound):
+                            keep.append(a)
+                            continue
+                        new_body.append(ast.copy_location(ast.ImportFrom(module=None, names=[ast.alias(name=m2, asname=None)], level=1), st))
+                        if a.asname != m2:
+                            rename[a.asname] = m2
+                        n_changed += 1
+                    else:
+                        keep.append(a)
+                if keep:
+                    st.names = keep
+                    new_body.append(st)
+                continue
+            if isinstance(st, ast.ImportFrom):
+                if st.level == 0 and st.module == pkg:
+                    st.level, st.module = 1, None
+                    n_changed += 1
+                elif st.level == 0 and st.module and st.module.startswith(pkg + '.') and st.module[len(pkg) + 1:] in mods:
+                    st.level, st.module = 1, st.module[len(pkg) + 1:]
+                    n_changed += 1
+                if st.level == 1 and st.module is None:
+                    for a in st.names:
+                        if a.name in mods and a.asname and a.asname != a.name and a.name not in bound and a.asname not in bound:
+                            rename[a.asname] = a.name
+                            a.asname = None
+                            n_changed += 1
+            new_body.append(st)
+        tree.body = new_body
+        if rename:
+            for n in ast.walk(tree):
+                if isinstance(n, ast.Name) and n.id in rename:
+                    n.id = rename[n.id]
+    return n_changed
